@@ -100,7 +100,23 @@ theorem visit_KA (A : Node) (cfg : Config) (ok : String → Bool) (hcfg : CfgOk 
     | block ss sp =>
       rw [va_notArrow _ _ _ rfl] at hpos; simp [visitedKids] at hpos
     | optChain o b sp =>
-      rw [va_notArrow _ _ _ rfl] at hpos; simp [visitedKids] at hpos
+      rw [va_notArrow _ _ _ rfl] at hpos
+      by_cases hno : noOpt cfg (.optChain o b sp) = true
+      · simp only [visit, run_bind] at hfo ⊢
+        have hid := toDdCond_id cfg f (.optChain o b sp) s hno
+        generalize toDdCond cfg f (.optChain o b sp) s = C at hid hfo
+        obtain ⟨⟨e', res⟩, s1⟩ := C
+        obtain ⟨hid1, hid2⟩ := hid
+        simp only [Prod.mk.injEq] at hid1
+        obtain ⟨rfl, rfl⟩ := hid1
+        simp only [Option.getD_none] at hfo ⊢
+        have hs1 : StOk s1 := by intro hc; exact hs (by rw [← hid2.2.2.2.1]; exact hc)
+        have hfo1 := (finish_TS root _ _).fo hfo
+        rw [finish_fst]
+        have hvk : visitedKids cfg (.optChain o b sp) = (Node.optChain o b sp).kids := by simp [visitedKids, hno, kids]
+        rw [hvk] at hpos
+        exact hgen false (.optChain o b sp) s1 rfl h0 ht hs1 hfo1 hpos
+      · simp [visitedKids, hno] at hpos
     | arrow ps b at' sp =>
       simp only [visit, run_pure]
       rw [va_eq] at hpos
